@@ -410,6 +410,11 @@ func (x *Exec) needDecl(name, decl string) {
 		return
 	}
 	x.smt.declared[key] = true
+	for _, d := range x.smt.sorts {
+		if d == decl {
+			return // declared during a loop-discovery pass whose bookkeeping was rolled back
+		}
+	}
 	x.smt.sorts = append(x.smt.sorts, decl)
 }
 
